@@ -83,14 +83,22 @@ func pureFilterSrc(fn *ssa.Function, isSrc func(ssa.Value) bool) (bool, string) 
 			for _, r := range *al.Referrers() {
 				if fa, ok := r.(*ssa.FieldAddr); ok {
 					for _, rr := range *fa.Referrers() {
-						if st, ok := rr.(*ssa.Store); ok && isAcc(st.Val) {
-							holdsAcc = true
+						if st, ok := rr.(*ssa.Store); ok {
+							if isAcc(st.Val) {
+								holdsAcc = true
+							} else if g, _, ok := delegatedFilter(st.Val, isSrc); ok && g != fn {
+								holdsAcc = true
+							}
 						}
 					}
 				}
 			}
 		}
 		if holdsAcc {
+			continue
+		}
+		// the selection handed to a helper of the module that is itself a pure filter of the slice it is given
+		if g, _, ok := delegatedFilter(v, isSrc); ok && g != fn {
 			continue
 		}
 		return false, "returns a slice that is neither the input nor the filtered accumulator"
@@ -151,6 +159,28 @@ func pureFilterSrc(fn *ssa.Function, isSrc func(ssa.Value) bool) (bool, string) 
 		return false, "writes into the input slice"
 	}
 	return true, ""
+}
+
+// delegatedFilter: v is the result of a call that passes the input slice (isSrc) to a module function which is a pure
+// filter of that parameter (a generic filterSlice(s, keep) helper). It returns the helper and the call.
+func delegatedFilter(v ssa.Value, isSrc func(ssa.Value) bool) (*ssa.Function, *ssa.Call, bool) {
+	call, ok := v.(*ssa.Call)
+	if !ok {
+		return nil, nil, false
+	}
+	g := eng.StaticCallee(call)
+	if g == nil || g.Blocks == nil || !eng.InModule(g) {
+		return nil, nil, false
+	}
+	args := eng.ArgsWithRecv(call)
+	for i, a := range args {
+		if i < len(g.Params) && isSrc(a) {
+			if ok, _ := pureFilter(g, g.Params[i]); ok {
+				return g, call, true
+			}
+		}
+	}
+	return nil, nil, false
 }
 
 func rulePureFilter(c *eng.Ctx) {
